@@ -33,7 +33,8 @@ N == Len(Args)
 
 (* what the wire can carry for an argument, by kind and cardinality *)
 Outcomes(a) ==
-    CASE a.kind = "auth" -> {"ok", "absent", "nontext", "badprefix", "badtoken"}
+    (* nodelim: the credential without any scheme delimiter ("Authorization: <token>", "Bearer<token>", "Cookie: <token>") *)
+    CASE a.kind = "auth" -> {"ok", "absent", "nontext", "badprefix", "badtoken", "nodelim"}
       [] a.kind = "body" -> {"ok", "malformed", "wrongctype", "noctype"}
       [] a.kind = "path" -> {"ok"} \cup (IF a.typed THEN {"unparsable"} ELSE {})
       [] a.kind = "query" /\ a.card = "one" -> {"ok", "absent", "repeated"} \cup (IF a.typed THEN {"unparsable"} ELSE {})
